@@ -68,6 +68,13 @@ def size_seq(a: int, b: int, c: int) -> bool:
                 m_bytes = m_bytes[:v]
             else:
                 m_bytes = m_bytes + [0] * (v - len(m_bytes))
+        elif op == "b":
+            # content edit with an immutable bytes object (only when it fits)
+            n = k + 2
+            if not (n <= m_size):
+                return done()
+            bi.contents = bytes([7] * n)
+            m_bytes = [7] * n
         elif op == "C":
             # content edit that leaves MORE stored bytes than size (the caller's doing); the next size assignment below the
             # stored count must truncate, whatever the previous size was
@@ -222,7 +229,7 @@ def shards(tier):
     for L in Ls:
         for extra in (0, 2):
             for k in range(1, K + 1):
-                for ops in list(itertools.product("sic", repeat=k)) + ([("C", "s")] if k == 2 else []) + ([("s", "C", "s"), ("C", "s", "i")] if k == 3 else []):
+                for ops in list(itertools.product("sic", repeat=k)) + ([("C", "s"), ("b", "s"), ("b", "i")] if k == 2 else []) + ([("s", "C", "s"), ("C", "s", "i")] if k == 3 else []):
                     out.append({"fn": "size_seq", "consts": {"L": L, "extra": extra, "ops": "".join(ops)}, "timeout": 600,
                                 "twin": "first", "cover": "first"})
         out.append({"fn": "ctor", "consts": {"L": L}, "timeout": 300})
